@@ -18,9 +18,9 @@ def before (a b : String) (l : List String) : Bool :=
 /-- The orders are installed from the three functions of app/modules.go. -/
 theorem orders_installed :
     orderCalls.map (fun c => (c.1, c.2.1)) =
-      [ ("SetOrderBeginBlockers", "orderBeginBlockers()..."),
-        ("SetOrderEndBlockers", "orderEndBlockers()..."),
-        ("SetOrderInitGenesis", "orderInitBlockers()...") ] := by decide
+      [ ("SetOrderBeginBlockers", "<list of module names returned by a function of package app>..."),
+        ("SetOrderEndBlockers", "<list of module names returned by a function of package app>..."),
+        ("SetOrderInitGenesis", "<list of module names returned by a function of package app>...") ] := by decide
 
 /-- The bet end-blocker runs before the order-book end-blocker. -/
 theorem bet_end_blocker_before_orderbook : before "bet" "orderbook" endBlockers = true := by decide
